@@ -145,6 +145,15 @@ class Prop(core.Prop):
                     sel = {o: list(osel), zd[0]: ['l', la], zd[1]: ['l', lb]}
                     for order in (('t', 'z', 'x'), ('x', 'z', 't'), (o, zd[1], zd[0])):
                         yield {'file': group['file'], 'sel': [[d, sel[d]] for d in order]}
+            # the index lists handed over as numpy arrays (one array object for both dimensions when the lists are
+            # equal): the caller's arrays are left alone and a second call with them gives the same answer
+            for la, lb in lists + [([-1, 0], [-1, 0]), ([0, -1, -1], [0, -1, -1])]:
+                if max(max(la), -min(la) - 1) >= n0 or max(max(lb), -min(lb) - 1) >= n1:
+                    continue
+                for osel in others[:2] + others[5:6]:
+                    sel = {o: list(osel), zd[0]: ['l', la], zd[1]: ['l', lb]}
+                    for order in (('t', 'z', 'x'), ('x', 'z', 't')):
+                        yield {'file': group['file'], 'sel': [[d, sel[d]] for d in order], 'arrays': True}
             return
         if 'slice_dim' in group:
             n = lens[group['slice_dim']]
@@ -239,6 +248,14 @@ class Prop(core.Prop):
             exp, indomain = None, False
         before = rfile.canon(rf)
         kw = OrderedDict((d, rops.sel_to_py(s)) for d, s in sel.items())
+        arrs = {}
+        if case.get('arrays'):
+            for d, s in sel.items():
+                if s[0] == 'l':
+                    key = tuple(s[1])
+                    if key not in arrs:
+                        arrs[key] = np.array(s[1], dtype='i8')
+                    kw[d] = arrs[key]
         try:
             got = real.sliceDimensions(**kw)
             raised = None
@@ -246,6 +263,12 @@ class Prop(core.Prop):
             got, raised = None, e
         vs = []
         states = [before]
+        for key, a_ in arrs.items():
+            if a_.tolist() != list(key):
+                vs.append(viol('argument-modified', (opname, sigcls), 'the index array %r handed to sliceDimensions '
+                               'is %r afterwards' % (list(key), a_.tolist()), selcls=sigcls))
+        if vs:
+            return result('viol', vs, states)
         if raised is not None:
             if indomain:
                 nempty = sum(1 for s_ in sel.values() if s_[0] == 'l' and len(s_[1]) == 0)
